@@ -105,7 +105,7 @@ pub fn f1(ctx: &Ctx) {
     let p = match pristine(k) {
         Ok(p) => p,
         Err(e) => {
-            ctx.machinery_error(format!("pristine file {k} is not readable: {e}"));
+            ctx.violation(format!("{P}/precondition/pristine-file-unreadable"), format!("pristine file {k} (written by the real writer / encoded independently, undamaged) is not readable: {e}"));
             return;
         }
     };
@@ -156,7 +156,7 @@ pub fn f2(ctx: &Ctx) {
     let p = match pristine(k) {
         Ok(p) => p,
         Err(e) => {
-            ctx.machinery_error(format!("pristine file {k} is not readable: {e}"));
+            ctx.violation(format!("{P}/precondition/pristine-file-unreadable"), format!("pristine file {k} (written by the real writer / encoded independently, undamaged) is not readable: {e}"));
             return;
         }
     };
@@ -214,7 +214,7 @@ pub fn poll(ctx: &Ctx) {
     let h = dev.handle();
     let rr = run_program(dev, &prog, &ExecOpts::default());
     if rr.err.is_some() || rr.panic.is_some() {
-        ctx.machinery_error(format!("writer program failed: {:?} {:?}", rr.err, rr.panic.map(|p| p.1.msg)));
+        ctx.violation(format!("{P}/precondition/writer-program-failed"), format!("the writer program that produces the undamaged file failed: {:?} {:?}", rr.err, rr.panic.map(|p| p.1.msg)));
         return;
     }
     let bytes = h.snapshot();
@@ -253,7 +253,7 @@ pub fn poll(ctx: &Ctx) {
     let good = match guarded(|| items(&bytes, 3 * n + 8)) {
         Ok(Ok(g)) if g.len() == n && g.iter().all(|x| x.is_ok()) => g,
         other => {
-            ctx.machinery_error(format!("unaltered file does not deliver {n} points: {:?}", other.map(|r| r.map(|v| v.len())).map_err(|p| p.msg)));
+            ctx.violation(format!("{P}/precondition/unaltered-file-incomplete"), format!("unaltered file does not deliver {n} points: {:?}", other.map(|r| r.map(|v| v.len())).map_err(|p| p.msg)));
             return;
         }
     };
@@ -323,7 +323,7 @@ pub fn big(ctx: &Ctx) {
     let bytes = h.snapshot();
     let pages = bytes.len() / 1024;
     if rr.err.is_some() || rr.panic.is_some() || bytes.len() % 1024 != 0 || pages.abs_diff(want) > 1 {
-        ctx.machinery_error(format!("big file {fi}: wanted {want} pages, got {} bytes ({:?})", bytes.len(), rr.err));
+        ctx.violation(format!("{P}/precondition/big-file-not-written"), format!("big file {fi}: wanted {want} pages, got {} bytes ({:?})", bytes.len(), rr.err));
         return;
     }
     if let Err(e) = E57Reader::validate_crc(Dev::new(bytes.clone())) {
